@@ -711,6 +711,46 @@ def r9(F, R):
         R.ok("C11-R9", "controller:waits", cl.path, "%d calls in the command loop; the only waits are recv_timeout on the command channel, response sends and locks" % n)
 
 
+
+def slot_emptiers(F):
+    """Every site that can leave the trace slot (`Mutex<Option<ChainStorage>>`) empty: [(body, block, term_or_stmt, how)]."""
+    out = []
+
+    def is_slot(ty):
+        ty = str(ty or "")
+        return "Option<" in ty and "ChainStorage" in ty and "Mutex" not in ty and "Arc" not in ty
+    for b in sorted(F.bodies.values(), key=lambda x: x.path):
+        for bi, blk in enumerate(b.blocks):
+            if blk["cleanup"]:
+                continue
+            t = blk["term"]
+            if t["k"] == "call" and t["callee"].get("name") in ("take", "replace", "swap", "take_if"):
+                tys = [(a.get("pl") or {}).get("ty") or a.get("ty") for a in t["args"]]
+                if any(is_slot(x) and str(x).startswith("&mut") for x in tys):
+                    out.append((b, bi, t, t["callee"].get("name")))
+            for st in blk["stmts"]:
+                if st["k"] == "assign" and st["pl"]["p"] and is_slot(st["pl"].get("ty")) and st["rv"]["k"] == "agg" and st["rv"].get("variant") == "None":
+                    out.append((b, bi, st, "= None"))
+    return out
+
+
+def r13(F, R, rid="C11-R13"):
+    R.rule(rid, "only finalisation empties a chain's trace slot: Option::take / mem::replace / mem::swap / `= None` on the `Option<ChainStorage>` behind the trace "
+                "mutex occurs in ChainProcess::finalize_many only. An empty slot is the worker's signal `trace removed by the controller, stop sampling`, and "
+                "flush / inspect / finalize skip a chain whose slot is empty: a second emptier ends a running chain silently or drops what a failed chain recorded")
+    sites = slot_emptiers(F)
+    n_fin = 0
+    for (b, bi, x, how) in sites:
+        key = "%s:%s" % (b.path, how)
+        site = "%s @%s" % (b.path, loc(x["span"]))
+        if "finalize" in b.path:
+            n_fin += 1
+            R.ok(rid, key, site, "slot emptied during finalisation")
+        else:
+            R.bad(rid, key, site, "the trace slot is emptied (%s) outside finalisation" % how)
+    if n_fin == 0:
+        R.missing(rid, "the take() of the trace slot in finalize_many")
+
 def run(F, R, config=None):
     P = K.positive_facts()
     r6(F, R, P)
@@ -723,6 +763,7 @@ def run(F, R, config=None):
         r9(F, R)
         r10(F, R)
         r11(F, R)
+        r13(F, R)
         # "a run that is not aborted records exactly num_tune + num_draws draws per chain": a chain whose starting point was found on a later
         # attempt must not report the earlier rejection as its result (C13-R3 analysis of the retry loop)
         from . import c13
@@ -739,6 +780,6 @@ def run(F, R, config=None):
     R.assume("user callbacks (ProgressCallback) and Model/Math implementations return")
 
 
-FEATURE_RULES = {"C11-R3": "parallel", "C11-R4": "parallel", "C11-R5": "parallel", "C11-R7": "parallel", "C11-R8": "parallel", "C11-R9": "parallel", "C11-R10": "parallel", "C11-R11": "parallel", "C11-R12": "parallel"}
+FEATURE_RULES = {"C11-R3": "parallel", "C11-R4": "parallel", "C11-R5": "parallel", "C11-R7": "parallel", "C11-R8": "parallel", "C11-R9": "parallel", "C11-R10": "parallel", "C11-R11": "parallel", "C11-R12": "parallel", "C11-R13": "parallel"}
 CONFIGS = ["all", "default", "zarr", "ndarray"]
 SELFTEST = True
